@@ -2389,6 +2389,13 @@ class Interp:
                 return _Select(k.poly, v[True], v[False])         # d[flag] for a flag decided by the data
             if isinstance(k, (str, int, type(None), Foreign)) and all(isinstance(x, (str, int)) for x in v):
                 raise PyRaise('KeyError', repr(k))        # a concrete key (or an object that is no string) that the literal dict does not hold
+            if isinstance(k, Arr) and k.ndim == 0 and k.mask is None:
+                # a dictionary keyed by values (a memo keyed by a unit): a hit when a key is the very same value, a miss when the dictionary is empty
+                hit_ = [x for x in v if isinstance(x, Arr) and x.ndim == 0 and x.mask is None and x.poly == k.poly]
+                if hit_:
+                    return v[hit_[0]]
+                if not v:
+                    raise PyRaise('KeyError', up(e.slice)[:40])
             return Unk('dict key %r' % (k,), e)
         if isinstance(v, GenList):
             k = self.expr(e.slice, env, mod)
@@ -3803,6 +3810,13 @@ class Interp:
                 return dict(recv)
             if name == 'setdefault' and 1 <= len(args) <= 2 and isinstance(args[0], (str, int)):
                 return recv.setdefault(args[0], args[1] if len(args) > 1 else None)
+            if name == 'setdefault' and 1 <= len(args) <= 2 and isinstance(args[0], Arr) and args[0].ndim == 0 and args[0].mask is None:
+                hit_ = [x for x in recv if isinstance(x, Arr) and x.ndim == 0 and x.mask is None and x.poly == args[0].poly]
+                if hit_:
+                    return recv[hit_[0]]
+                if not recv:
+                    recv[args[0]] = args[1] if len(args) > 1 else None
+                    return recv[args[0]]
             if name == 'pop' and 1 <= len(args) <= 2 and isinstance(args[0], (str, int)):
                 if args[0] in recv:
                     return recv.pop(args[0])
